@@ -318,6 +318,43 @@ def replay(ctx, path):
     b.cleanup()
 
 # ---------------------------------------------------------------- the check
+SETOF2_MODULE = ("W2 DEFINITIONS AUTOMATIC TAGS ::= BEGIN T ::= SEQUENCE { a INTEGER, c SET OF INTEGER (0..300), s UTF8String } "
+                 "U ::= SET OF SEQUENCE { x UTF8String, y INTEGER } END")
+SETOF2_CASES = [("T", SETOF_BER), ("U", "311c300c800568656c6c6f8103010001300c8005776f726c64810300ffff")]
+
+def directed_setof_encode_failures(ctx):
+    """every allocation of every encoder of a SET OF value fails in turn (exhaustively, not sampled): the call must fail or succeed
+    cleanly and the final free must leave nothing live (the sorting encoders - DER, canonical UPER / OER / XER - keep per-element
+    scratch buffers; the repaired findings F7, F21, F23 and their neighbours live here)"""
+    b = bundle.Bundle("W2", SETOF2_MODULE, ["T", "U"], driver_sources=DRV, link_flags=WRAP)
+    try:
+        exe = b.build()
+    except Exception as e:
+        ctx.module_not_built({"name": "W2-directed"}, e); b.cleanup(); return
+    bad = []; n = 0
+    try:
+        lines = []
+        for tn, ber in SETOF2_CASES:
+            for syn in ENC_SYN:
+                base = f"@{tn} hist 0 dec:ber:{ber};enc:{syn}"
+                o = run_parallel(ctx, exe, [base])[0][0]
+                st = parse_hist(o) if o else None
+                na = st[1]["a"] if st and len(st) > 1 else 0
+                for k in range(1, min(na, 200) + 1):
+                    lines.append(f"@{tn} hist {k} dec:ber:{ber};!enc:{syn}")
+        outs, _ = run_parallel(ctx, exe, lines)
+        for l, o in zip(lines, outs):
+            n += 1; ctx.cov["evaluations"] += 1
+            why = judge(o)
+            if why: bad.append((l, o, why))
+            else: ctx.count_nontrivial(("setof-encfail", l))
+    finally:
+        b.cleanup()
+    ctx.cov["predicate"]["directed_setof_encode_failures"] = {"cases": n, "failures": len(bad)}
+    for l, o, why in bad[:3]:
+        ctx.violation(f"C14 lifecycle predicate fails on C ({why}) under an allocation failure inside a SET OF encoder: {l[:200]} -> {str(o)[:300]}",
+                      {"module": SETOF2_MODULE, "type": l.split()[0][1:], "op": l, "c_output": str(o)[:3000], "failure": why})
+
 def run(ctx):
     have = {f["id"] for f in ctx.findings}
     for f in PROPOSED_FINDINGS:
@@ -330,6 +367,7 @@ def run(ctx):
         "K leg: the ownership tree is read from the C structure by harness/ops_gen_c14.c (descriptor walk, private copy of OCTET_STRING.c's struct _stack layout)"]
     ctx.lean()
     replay_witnesses(ctx)
+    directed_setof_encode_failures(ctx)
     # sanitizer findings owned by other properties: a crash whose report matches the narrow pattern of such an entry
     # (and only while the entry is listed in KNOWN_FINDINGS.json) is reported under that entry, not as a C14 violation
     foreign = [f for f in core.load_findings() if f.get("status") == "known" and f["id"] in {fid for _, fid in FOREIGN_PATTERNS}]
